@@ -91,32 +91,32 @@ Print Assumptions C05_phases_in_order.
    message of a round the node has not seen, from the initial dump *)
 Require Import Node.Types Node.Process Node.Refines.
 Theorem C05_node_persists_round_step :
-  forall now st m d0 h' op,
+  forall put now st m d0 h' op,
   tget' (ns_rounds st) (m_round m) = Some d0 -> d_state d0 <> "" ->
   has_suffix (d_state d0) "_error" = false -> has_suffix (d_state d0) "_timeout" = false ->
   String.eqb (m_event m) ev_sig_reconstructed = false ->
   String.eqb (m_event m) ev_sig_recon_failed = false ->
-  process_message now {| h_st := st; h_tr := [] |} m = ROk h' op ->
+  process_message put now {| h_st := st; h_tr := [] |} m = ROk h' op ->
   exists req d r x, m_req m = MFsm req /\ round_step now d0 (m_event m) req = SOk d r x /\
                     tget' (ns_rounds (h_st h')) (m_round m) = Some d /\ op = op_of (m_round m) r x.
 Proof. exact process_message_refines_round_step. Qed.
 Theorem C05_node_first_message_round_step :
-  forall now st m h' op,
+  forall put now st m h' op,
   tget' (ns_rounds st) (m_round m) = None ->
   String.eqb (m_event m) ev_sig_reconstructed = false ->
   String.eqb (m_event m) ev_sig_recon_failed = false ->
-  process_message now {| h_st := st; h_tr := [] |} m = ROk h' op ->
+  process_message put now {| h_st := st; h_tr := [] |} m = ROk h' op ->
   exists req d r x, m_req m = MFsm req /\ round_step now initial_dump_of (m_event m) req = SOk d r x /\
                     tget' (ns_rounds (h_st h')) (m_round m) = Some d /\ op = op_of (m_round m) r x.
 Proof. exact first_message_refines_round_step. Qed.
 (* the same for a stored round in ANY state: when the round is found in a cancelled signing state
    the handler first applies the restart event (in memory), then the step *)
 Theorem C05_node_persists_round_step_any_state :
-  forall now st m d0 h' op,
+  forall put now st m d0 h' op,
   tget' (ns_rounds st) (m_round m) = Some d0 -> d_state d0 <> "" ->
   String.eqb (m_event m) ev_sig_reconstructed = false ->
   String.eqb (m_event m) ev_sig_recon_failed = false ->
-  process_message now {| h_st := st; h_tr := [] |} m = ROk h' op ->
+  process_message put now {| h_st := st; h_tr := [] |} m = ROk h' op ->
   (h' = {| h_st := st; h_tr := [] |} /\ op = None) \/
   exists req d1 d r x, m_req m = MFsm req /\ restarts now d0 d1 /\
                        round_step now d1 (m_event m) req = SOk d r x /\
